@@ -37,7 +37,6 @@ BUILTINS = set(dir(builtins))
 EXCLUDED_DIRS = ("core", )
 # (module, function path, sha256[:16] of ast.dump of the function as of the tree the replica was derived from)
 REPLICA_ANCHORS = [
-    ("symplyphysics.docs.parse", "find_members_and_functions", "1becaf93e0dab741"),
 ]
 
 
@@ -111,6 +110,12 @@ class AstReader(PyReader):
                 return getattr(base, attr)
             raise Raised("AttributeError", getattr(n, "lineno", 0))
         return NotImplemented
+
+    def is_instance(self, v, names, n):
+        classes = tuple(getattr(ast, nm) for nm in names if isinstance(getattr(ast, nm, None), type))
+        if len(classes) != len(names):
+            self.fail(n, "isinstance outside the modelled classes")
+        return isinstance(v, classes)
 
     def store_attr(self, base, attr, value, n) -> bool:
         if isinstance(base, ast.AST):
@@ -215,7 +220,60 @@ def kept_prefix(tree: ast.Module, run: Run = None) -> tuple[list, list[int]]:
         else:
             txt = ast.unparse(s_) if isinstance(s_, ast.AST) else ""
             inserted.append((pos, "disable" if txt == "disable_sympy_evaluation()" else ("reset" if txt == "reset_sympy_evaluation()" else "other")))
+    kept_prefix.last_patched = out
     return kept, inserted
+
+
+class _Captured(Exception):
+
+    def __init__(self, env):
+        self.env = env
+
+
+class MembersReader(AstReader):
+    """docs.parse.find_members_and_functions evaluated up to the point where it compiles and executes the module: what it has decided by then - which names are
+    members and which string documents each - is all the static part there is"""
+
+    def hook_call(self, n, env, fns):
+        name = (dotted(n.func) or "").split(".")[-1]
+        if name == "compile" and isinstance(n.func, ast.Name):
+            raise _Captured(dict(env))
+        if name in ("FunctionWithDoc", "MemberWithDoc", "LawSymbol") and name not in self.functions:
+            return ("record", name, [self.ev(a, env, fns) for a in n.args])
+        if name == "_clean_docstring" and len(n.args) == 1:
+            return self.ev(n.args[0], env, fns)
+        return super().hook_call(n, env, fns)
+
+
+_MEMBERS_READER: dict = {}
+
+
+def documented_members(patched: ast.Module, run: Run) -> tuple[list, dict]:
+    """(member names in order, {name: docstring}) as find_members_and_functions associates them for a patched module"""
+    key = id(run.src)
+    if key not in _MEMBERS_READER:
+        _MEMBERS_READER.clear()
+        _MEMBERS_READER[key] = run.src.need(DOCS + "parse").tree
+    R = MembersReader(_MEMBERS_READER[key], "docs/parse.py", depth_limit=8)
+    try:
+        R.call("find_members_and_functions", [patched])
+    except _Captured as c:
+        env = c.env
+    except Raised as r:
+        raise AnalysisError(f"C19: docs.parse.find_members_and_functions raises {r.exc} before it executes the module")
+    else:
+        raise AnalysisError("C19: docs.parse.find_members_and_functions no longer compiles the module: rule D1/D4 must be re-derived")
+    dicts = [v for v in env.values() if isinstance(v, dict) and all(isinstance(k_, str) for k_ in v)]
+    lists = [v for v in env.values() if isinstance(v, list) and v and all(isinstance(x, str) for x in v)]
+    docs = [d for d in dicts if all(isinstance(x, str) or x is None or not isinstance(x, (list, dict, tuple)) for x in d.values())]
+    if len(docs) != 1 or len(lists) > 1:
+        # an empty module: nothing collected
+        if not docs and not lists:
+            return [], {}
+        if len(docs) == 1 and not lists:
+            return [], docs[0]
+        raise AnalysisError("C19: cannot tell the member list and the docstring table of find_members_and_functions apart")
+    return (lists[0] if lists else []), docs[0]
 
 
 def _patcher_anchors(run: Run) -> None:
@@ -479,10 +537,11 @@ def check(run: Run) -> None:
         run.ob("D1", m.name)
         for node, construct, msg in exec_incompatibilities(kept):
             run.violate("D1", f"{m.name}:{construct}", m, node, msg + " - under exec(code, {}, context) that is a NameError")
-        # D4
-        member = None
+        # D4 (the member / docstring association is the generator's own, evaluated on the patched module)
+        names_in_order, docstrings = documented_members(kept_prefix.last_patched, run)
         bound_count = {}
         docs_of = {}
+        node_of_doc = {}
         for s in kept:
             if s is None:
                 continue
@@ -492,15 +551,16 @@ def check(run: Run) -> None:
                     run.violate("D4", f"{m.name}:{s.name}:function-placeholder", m, s, f"function `{s.name}` has a formula placeholder in its docstring; it is never substituted")
                 continue
             if isinstance(s, ast.Assign):
-                nm = next((t.id for t in s.targets if isinstance(t, ast.Name)), None)
-                member = nm
                 for t in s.targets:
                     for x in ast.walk(t):
                         if isinstance(x, ast.Name):
                             bound_count[x.id] = bound_count.get(x.id, 0) + 1
                 continue
-            if isinstance(s, ast.Expr) and isinstance(s.value, ast.Constant) and isinstance(s.value.value, str) and member:
-                docs_of.setdefault(member, []).append((s, s.value.value))
+            if isinstance(s, ast.Expr) and isinstance(s.value, ast.Constant) and isinstance(s.value.value, str):
+                node_of_doc[s.value.value] = s
+        for nm_, text_ in docstrings.items():
+            if isinstance(text_, str):
+                docs_of.setdefault(nm_, []).append((node_of_doc.get(text_, m.tree), text_))
         mdoc = ast.get_docstring(m.tree) or ""
         if ":laws:symbol::" in mdoc or ":laws:latex::" in mdoc:
             run.violate("D4", f"{m.name}:module-placeholder", m, m.tree, "module docstring has a formula placeholder; it is never substituted")
